@@ -10,6 +10,7 @@
 use aelys_bytecode::UpvalueDescriptor;
 
 pub(crate) const C04_WORDS: usize = 4;
+pub(crate) const C04_HEADROOM: u64 = 64;
 
 /// heap pool selector (concrete per harness)
 pub(crate) const POOL_SCALAR: u8 = 0; // F, string
@@ -67,6 +68,7 @@ pub(crate) fn c04_state(pool: u8) -> (VM, C04Pre) {
         }
         POOL_CALL => {
             let g = mk_function(vec![kani::any(), kani::any()], vec![Value::from_raw(kani::any())], kani::any(), kani::any());
+            kani::assume(g.num_registers <= 3); // bound: a larger callee window only lengthens registers.resize
             kani::assume(!g.constants[0].is_ptr() && g.constants[0].as_nested_fn_marker().is_none());
             let gr = install_function(&mut vm, g); // 1
             let up = vm.heap.alloc(GcObject::new(ObjectKind::Upvalue(AelysUpvalue { location: UpvalueLocation::Closed(Value::from_raw(kani::any())) }))); // 2
@@ -99,6 +101,10 @@ pub(crate) fn c04_state(pool: u8) -> (VM, C04Pre) {
         }
         _ => {}
     }
+    // the VM is a few bytes from its limit, so every allocation the step makes is either refused or <= 5 slots
+    // (keeps vec![x; n] fill loops inside the unwinding bound; an allocation made *before* the budget check
+    // runs past the bound and is reported)
+    vm.config.max_heap_bytes = (vm.heap.bytes_allocated() + vm.manual_heap.bytes_allocated()) as u64 + if pool == POOL_CLOS { 4096 } else { C04_HEADROOM };
     let base: usize = kani::any();
     kani::assume(base <= 2);
     push_function_frame(&mut vm, fr, base, kani::any());
@@ -134,8 +140,10 @@ pub(crate) fn c04_post(vm: &VM, out: &Option<StepOut>, r: &Result<Value, Runtime
         // the loop continues: its cached locals must describe the (new) top frame
         assert!(c04_locals_match_top(vm, o));
     }
-    kani::cover!(out.is_some());
-    kani::cover!(r.is_err());
+    kani::cover!(true, "REQ post-state reached");
+    kani::cover!(out.is_some(), "step continues");
+    kani::cover!(r.is_err(), "step reports an error");
+    kani::cover!(out.is_none() && r.is_ok(), "step returns a value");
 }
 
 pub(crate) fn c04_locals_match_top(vm: &VM, out: &StepOut) -> bool {
